@@ -82,11 +82,15 @@ CLAIMED["C06"] = dict(
 _WR = ("tied to the code two ways: (A) byte-exact correspondence (transcripts and file bytes) of seeded write/close/re-open histories on every RAW/AU/WAV encoding against the "
        "Lean handle+container model; (B) for every writable (major, subtype, endian) x channels x rates x lengths around block boundaries, the same samples written in one call and "
        "split over mixed calls with header updates, crash-point snapshots and a different stale frames value, re-opened and compared on the implementation's own transcripts. ")
+_AW = (" The predicate that decides VIOLATION on a record of the all-format write campaign is the Lean definition Sf.AbsWrite.judge (lean/SfModel/AbsWrite.lean: the clauses of the statement as Boolean checkers over the "
+       "samples handed to each write call, the lossless side condition, re-open info, read-back, closed bytes of the reference / split / stale-frames runs and every crash-point image, with the geometry of lean/SfModel/Geometry.lean) "
+       "evaluated by the driver `sfmodel abs-write`; SfProps/%sAbsW.lean proves what an accepted record means and that the answers the concrete model is proved to give are accepted; the Python predicate runs beside it as a cross-check "
+       "(evidence `abs_write_predicate`, lean_python_disagreements = 0).")
 CLAIMED["C01"] = dict(
     text="Proof (Lean 4): sample_roundtrip / data_roundtrip (decode∘encode = id for every lossless (encoding, caller type) pair, every length, every conversion setting), "
          "file_roundtrip (open, any list of write calls, close: the data region is encodeAll of the samples and decodes back) for RAW/AU/WAV, and aiff_file_roundtrip "
          "(SfProps/C01Aiff.lean: the same for every accepted AIFF/AIFF-C encoding incl. re-open info and exact frames; the campaign of vlib/aiff.py compares the audio bytes with the model's encoders); " + _WR +
-         "Partial: block codecs (ALAC, DWVW, DPCM, SDS, PAF24) are covered by (B) only.",
+         "Partial: block codecs (ALAC, DWVW, DPCM, SDS, PAF24) are covered by (B) only." + _AW % "C01",
     technique="Lean 4 theorems over a hand-written codec/handle model + differential correspondence + round-trip predicate on implementation transcripts",
     design_ref="DESIGN.md §7 C01")
 CLAIMED["C04"] = dict(
@@ -101,19 +105,19 @@ CLAIMED["C04"] = dict(
          "WAVEX and RF64 write-side models (SfModel/Wavex.lean, Rf64.lean: both RF64 header forms, auto-downgrade; session theorems for WAVEX; their readers are not modelled). " + _WR +
          "The stand-alone models are tied by their own campaigns: every accepted sample-granular encoding x channels x rates (incl. 1, 65536, 2^30, 2^31-1) x lengths, ALL header and tail bytes "
          "of the store after open, after a header update and after close, and the parsers on library files plus thousands of truncated/damaged variants. The geometry (block length, pad allowance, "
-         "rate quantiser per container) is written from the format definitions, not measured. Partial: header bytes of the other 17 containers are not modelled (covered by B).",
+         "rate quantiser per container) is written from the format definitions, not measured. Partial: header bytes of the other 17 containers are not modelled (covered by B)." + _AW % "C04",
     technique="Lean 4 theorems over hand-written container models + differential correspondence (file bytes, parser verdicts) + predicate on implementation transcripts",
     design_ref="DESIGN.md §7 C04")
 CLAIMED["C07"] = dict(
     text="Proof (Lean 4): kernel_append, write_partition_store (two calls = one call, every field and byte), file_bytes_fn / file_bytes_partition (closed bytes are a function of "
          "open parameters, concatenated samples and PEAK state only; header updates and call variants do not matter) for RAW/AU/WAV, and since the repairs of KF-C18-DOUBLE-NARROW / KF-C18-STAGING-MISALIGN also for "
-         "PEAK-carrying WAV float/double with finite samples (file_bytes_partition_finite); " + _WR + "The clock is pinned by the harness. Partial: block encoders are covered by (B).",
+         "PEAK-carrying WAV float/double with finite samples (file_bytes_partition_finite); " + _WR + "The clock is pinned by the harness. Partial: block encoders are covered by (B)." + _AW % "C07",
     technique="Lean 4 theorems over a hand-written handle model + differential correspondence + byte comparison of partitions on the implementation",
     design_ref="DESIGN.md §7 C07")
 CLAIMED["C11"] = dict(
     text="Proof (Lean 4) that the store after a header update parses to the frames written so far (AU/WAV model); " + _WR +
          "Every snapshot (copy of the store right after SFC_UPDATE_HEADER_NOW or, in auto mode, after each write) is opened by a second handle and must report the same parameters, "
-         "the frames written so far (whole blocks) and the same prefix of samples. RAW (no header) and CAF/ALAC are outside the statement.",
+         "the frames written so far (whole blocks) and the same prefix of samples. RAW (no header) and CAF/ALAC are outside the statement." + _AW % "C11",
     technique="Lean 4 theorems over a hand-written container model + crash-point snapshots parsed by the implementation",
     design_ref="DESIGN.md §7 C11")
 CLAIMED["C03"] = dict(
